@@ -199,7 +199,7 @@ func init() {
 				continue
 			}
 			ring = orient(ring, o)
-			switch c.rng.Intn(6) {
+			switch c.rng.Intn(9) {
 			case 0, 1:
 				c16Smart(c, []string{"Ring", "Geometry"}[c.rng.Intn(2)], box, [][][][2]int{{closed(scale60(ring))}}, o)
 			case 2: // polygon with an interior hole: a small square about the centre, kept only if it lies strictly inside
@@ -211,7 +211,8 @@ func init() {
 					continue
 				}
 				c16Smart(c, []string{"Polygon", "Geometry"}[c.rng.Intn(2)], box, [][][][2]int{{closed(scale60(ring)), closed(scale60(hole))}}, o)
-			case 3: // multipolygon: two stars side by side, in [0,3] x [0,3] and [3,6] x [0,3] (they can touch along x = 3 only)
+			case 3: // multipolygon: two stars side by side, in [0,3] x [0,3] and [3,6] x [0,3] (they can touch along x = 3
+				// only), each possibly with a small interior hole; boxes that swallow one member whole arise often
 				r1, r2 := starRing(c, 3+c.rng.Intn(6), [2]int{3, 3}, 3), starRing(c, 3+c.rng.Intn(6), [2]int{3, 3}, 3)
 				if r1 == nil || r2 == nil {
 					continue
@@ -221,7 +222,51 @@ func init() {
 				for j, p := range r2 {
 					shifted[j] = [2]int{p[0] + 3, p[1]}
 				}
-				c16Smart(c, []string{"MultiPolygon", "Geometry"}[c.rng.Intn(2)], box, [][][][2]int{{closed(scale60(r1))}, {closed(scale60(shifted))}}, o)
+				p1 := [][][2]int{closed(scale60(r1))}
+				p2 := [][][2]int{closed(scale60(shifted))}
+				// holes: a small triangle around the star centre (1.5,1.5) resp. (4.5,1.5), on the 1/60 lattice, if inside
+				hole := func(cx int) [][2]int {
+					h := [][2]int{{cx - 20, 80}, {cx + 20, 80}, {cx, 110}}
+					if o > 0 {
+						h = reverse2(h)
+					}
+					return h
+				}
+				if h := hole(90); triInside(scale60(r1), h) {
+					p1 = append(p1, closed(h))
+				}
+				if h := hole(270); triInside(scale60(shifted), h) {
+					p2 = append(p2, closed(h))
+				}
+				bx := box
+				if c.rng.Intn(2) == 0 { // a box containing the first member entirely and cutting the second
+					bx = [4]int{-1 * S, -1 * S, (4 + c.rng.Intn(2)) * S, 4 * S}
+				}
+				c16Smart(c, []string{"MultiPolygon", "Geometry"}[c.rng.Intn(2)], bx, [][][][2]int{p1, p2}, o)
+			case 6, 7: // two triangles sharing one vertex that lies on a box edge or corner, interiors disjoint
+				bx := [4]int{2 * S, 2 * S, 6 * S, 6 * S}
+				var v [2]int
+				switch c.rng.Intn(5) {
+				case 0:
+					v = [2]int{2 + c.rng.Intn(5), 6} // top side incl. corners
+				case 1:
+					v = [2]int{2, 2 + c.rng.Intn(5)} // left side
+				case 2:
+					v = [2]int{2 + c.rng.Intn(5), 2}
+				case 3:
+					v = [2]int{6, 2 + c.rng.Intn(5)}
+				default:
+					v = [][2]int{{2, 2}, {2, 6}, {6, 2}, {6, 6}}[c.rng.Intn(4)]
+				}
+				tri := func() [][2]int {
+					t := orient([][2]int{v, {1 + c.rng.Intn(7), 1 + c.rng.Intn(7)}, {1 + c.rng.Intn(7), 1 + c.rng.Intn(7)}}, o) // grid 1..7: differences <= 6
+					return t
+				}
+				a, b := tri(), tri()
+				if a == nil || b == nil || !trisShareOnlyVertex(a, b, v) {
+					continue
+				}
+				c16Smart(c, "MultiPolygon", bx, [][][][2]int{{closed(scale60(a))}, {closed(scale60(b))}}, o)
 			default: // open input: a run of vertices strictly inside the box with its two neighbours strictly outside
 				s := float64(S)
 				k := len(ring)
@@ -270,6 +315,63 @@ func init() {
 	})
 }
 
+// trisShareOnlyVertex: two triangles with the common vertex v whose closed regions meet in v only (exact tests)
+func trisShareOnlyVertex(a, b [][2]int, v [2]int) bool {
+	cross := func(p, q, r [2]int) int { return (q[0]-p[0])*(r[1]-p[1]) - (q[1]-p[1])*(r[0]-p[0]) }
+	inTri := func(t [][2]int, p [2]int) bool { // closed triangle
+		d1, d2, d3 := cross(t[0], t[1], p), cross(t[1], t[2], p), cross(t[2], t[0], p)
+		neg := d1 < 0 || d2 < 0 || d3 < 0
+		pos := d1 > 0 || d2 > 0 || d3 > 0
+		return !(neg && pos)
+	}
+	onSeg := func(p, q, r [2]int) bool {
+		return cross(p, q, r) == 0 && min(p[0], q[0]) <= r[0] && r[0] <= max(p[0], q[0]) && min(p[1], q[1]) <= r[1] && r[1] <= max(p[1], q[1])
+	}
+	segsMeet := func(p1, q1, p2, q2 [2]int) bool {
+		d1, d2, d3, d4 := cross(p2, q2, p1), cross(p2, q2, q1), cross(p1, q1, p2), cross(p1, q1, q2)
+		if ((d1 > 0 && d2 < 0) || (d1 < 0 && d2 > 0)) && ((d3 > 0 && d4 < 0) || (d3 < 0 && d4 > 0)) {
+			return true
+		}
+		return onSeg(p2, q2, p1) || onSeg(p2, q2, q1) || onSeg(p1, q1, p2) || onSeg(p1, q1, q2)
+	}
+	for _, p := range a {
+		if p != v && inTri(b, p) {
+			return false
+		}
+	}
+	for _, p := range b {
+		if p != v && inTri(a, p) {
+			return false
+		}
+	}
+	for i := 0; i < 3; i++ {
+		for j := 0; j < 3; j++ {
+			a1, a2, b1, b2 := a[i], a[(i+1)%3], b[j], b[(j+1)%3]
+			if (a1 == v || a2 == v) && (b1 == v || b2 == v) {
+				// two edges through v: they may only meet in v (not be collinear-overlapping)
+				ao, bo := a1, b1
+				if a1 == v {
+					ao = a2
+				}
+				if b1 == v {
+					bo = b2
+				}
+				if cross(v, ao, bo) == 0 && (ao[0]-v[0])*(bo[0]-v[0])+(ao[1]-v[1])*(bo[1]-v[1]) > 0 {
+					return false
+				}
+				continue
+			}
+			if segsMeet(a1, a2, b1, b2) {
+				return false
+			}
+		}
+	}
+	return true
+}
+
+// triInside: the three corners of the small triangle are strictly inside the ring and no ring edge meets it
+func triInside(ring, tri [][2]int) bool { return squareInside(ring, tri) }
+
 // squareInside: every corner of the square is strictly inside the ring (exact crossing-number test) and no ring
 // edge meets the closed square, so the square is an interior hole
 func squareInside(ring, sq [][2]int) bool {
@@ -305,7 +407,7 @@ func squareInside(ring, sq [][2]int) bool {
 	}
 	for i := range ring {
 		for j := range sq {
-			if segMeets(ring[i], ring[(i+1)%len(ring)], sq[j], sq[(j+1)%4]) {
+			if segMeets(ring[i], ring[(i+1)%len(ring)], sq[j], sq[(j+1)%len(sq)]) {
 				return false
 			}
 		}
